@@ -70,6 +70,12 @@ def run_cross(col, case):
     feats.update({'part': 'cross_semiring', 'method': case['method']})
     col.case(('cross', json.dumps(spec, sort_keys=True), case['method']), nontrivial=True, sample={'part': 'cross_semiring', 'rules': spec['rules']})
     profiles = [tuple('P' * nunk)] + [tuple('Z' if i == j else 'P' for i in range(nunk)) for j in range(min(nunk, 3))]
+    # infinite weights, alone and next to a zero weight (0 x inf = 0 in every semiring): a seeded sample of ordered (inf, zero) position pairs
+    profiles += [tuple('I' if i == j else 'P' for i in range(nunk)) for j in range(min(nunk, 2))]
+    prng = random.Random(nunk * 1000 + len(spec['rules']))
+    pairs = [(i, j) for i in range(nunk) for j in range(nunk) if i != j]
+    for i, j in prng.sample(pairs, min(len(pairs), 6)):
+        profiles.append(tuple('I' if k == i else 'Z' if k == j else 'P' for k in range(nunk)))
     for prof in profiles:
         V = symvals.Vars()
         w = {}
